@@ -4,6 +4,7 @@ package main
 // C01 catalogue.  Used by C01, C03 and C18.
 
 import (
+	"fmt"
 	"time"
 
 	"github.com/jcmturner/gofork/encoding/asn1"
@@ -66,7 +67,7 @@ type recipe struct {
 	flipAuth   int
 	truncAuth  int
 	authData   types.AuthorizationData // sealed authorization data (nil: none)
-	trailer    bool // an unsealed EncTicketPart travels after enc-part (Ticket.Unmarshal fills DecryptedEncPart from it)
+	trailer    bool                    // an unsealed EncTicketPart travels after enc-part (Ticket.Unmarshal fills DecryptedEncPart from it)
 }
 
 type minted struct {
@@ -199,4 +200,31 @@ func (m minted) jSealedAuth() jv.V {
 	r := m.r
 	sec := r.ctime.Truncate(time.Second)
 	return jv.L(jv.S(r.authCRealm), jv.Strs(r.authCName), jv.I(sec.Unix()), jv.I(int64(r.ctime.Sub(sec)/time.Microsecond)))
+}
+
+// checkPrincipalEqual compares types.PrincipalName.Equal - the helper behind the client-name check of AP-REQs, the
+// replay cache's service match, reply verification and credential-cache look-up - with the RFC 4120 6.2 rule stated
+// independently: same number of components, each equal as a string, the name type not significant.
+func checkPrincipalEqual(c *Ctx) {
+	names := [][]string{{}, {""}, {"", ""}, {"a"}, {"a", "b"}, {"a/b"}, {"a", "b", "c"}, {"a/b", "c"}, {"a", "b/c"}, {"a/b/c"}, {"A"}, {"a", ""}, {"", "a"},
+		{"krbtgt", "TEST.GOKRB5"}, {"krbtgt/TEST.GOKRB5"}, {"HTTP", "host.test.gokrb5"}, {"HTTP", "host.test.gokrb5", ""}, {"testuser1"}, {"testuser1 "}, {"testuser1@TEST.GOKRB5"}}
+	for i, a := range names {
+		for j, b := range names {
+			for _, nt := range [][2]int32{{1, 1}, {1, 2}, {2, 3}, {0, 10}} {
+				want := len(a) == len(b)
+				if want {
+					for k := range a {
+						if a[k] != b[k] {
+							want = false
+						}
+					}
+				}
+				pa, pb := types.PrincipalName{NameType: nt[0], NameString: a}, types.PrincipalName{NameType: nt[1], NameString: b}
+				var got bool
+				p, _ := guard(func() { got = pa.Equal(pb) })
+				c.Check(!p && got == want, "PrincipalName.Equal: same components, name type not significant (RFC 4120 6.2)", "principal-equal", fmt.Sprintf("%q (type %d) vs %q (type %d): got %v want %v", a, nt[0], b, nt[1], got, want), map[string]interface{}{"i": i, "j": j})
+			}
+		}
+	}
+	c.Count("principal-equal-pairs")
 }
